@@ -1,5 +1,5 @@
 // c07_ident.cpp — C07 part (b): identity of each element-wise function.  `ident S:<fn>` applies view::<fn> to a
-// small fixed array and compares every element BIT FOR BIT (as double; NaN == NaN) with the scalar formula the
+// small fixed array (double; `ident S:<fn> S:f32`: float, unary math functions) and compares every element BIT FOR BIT (as double; NaN == NaN) with the scalar formula the
 // header documents, evaluated in the same process with the same libm: a C++-side oracle (the Coq model has no
 // libm).  Prints "ok" or "mismatch <fn> <x> [<y>] <got> <want>".
 #include "nmtools/array/view/ufuncs/add.hpp"
@@ -134,18 +134,22 @@ static std::string check2(const std::string& fn, const V& mv, const In1& a, cons
 #define BIN(NAME, EXPR)     if (fn == #NAME) return check2(fn, view::NAME(x, y), X, Y, [](double t, double u) { return EXPR; });
 #define IBIN(NAME, A, EXPR) if (fn == #NAME) return check2(fn, view::NAME(arr(A), yi), A, YI, [](int t, int u) { return EXPR; });
 
+#define UNT(NAME, EXPR)     if (fn == #NAME) return check1(fn, view::NAME(x), XT, [](T t) { return EXPR; });
+template <typename T>
 static std::string handle_a(const std::string& fn) {
-    auto x = arr(X);
-    UN(arccos, std::acos(t)) UN(arccosh, std::acosh(t)) UN(arcsin, std::asin(t)) UN(arcsinh, std::asinh(t))
-    UN(arctan, std::atan(t)) UN(arctanh, std::atanh(t)) UN(cbrt, std::cbrt(t)) UN(ceil, std::ceil(t))
-    UN(cos, std::cos(t)) UN(cosh, std::cosh(t)) UN(exp, std::exp(t)) UN(exp2, std::exp2(t)) UN(expm1, std::expm1(t))
-    UN(fabs, std::fabs(t)) UN(floor, std::floor(t)) UN(isfinite, std::isfinite(t)) UN(isinf, std::isinf(t))
-    UN(isnan, std::isnan(t)) UN(log, std::log(t)) UN(log10, std::log10(t)) UN(log1p, std::log1p(t)) UN(log2, std::log2(t))
-    UN(negative, -t) UN(positive, +t) UN(reciprocal, 1 / t) UN(rint, std::rint(t)) UN(signbit, std::signbit(t))
-    UN(sin, std::sin(t)) UN(sinh, std::sinh(t)) UN(sqrt, std::sqrt(t)) UN(square, t * t) UN(tan, std::tan(t))
-    UN(tanh, std::tanh(t)) UN(trunc, std::trunc(t)) UN(logical_not, !static_cast<bool>(t))
-    UN(deg2rad, t * (3.141592653589793238462643383279502884197 / 180)) UN(radians, t * (3.141592653589793238462643383279502884197 / 180))
-    UN(degrees, t * (180.0 / 3.141592653589793238462643383279502884197)) UN(rad2deg, t * (180.0 / 3.141592653589793238462643383279502884197))
+    const std::vector<T> XT(X.begin(), X.end());
+    auto x = arr(XT);
+    constexpr T PI = T(3.141592653589793238462643383279502884197);
+    UNT(arccos, std::acos(t)) UNT(arccosh, std::acosh(t)) UNT(arcsin, std::asin(t)) UNT(arcsinh, std::asinh(t))
+    UNT(arctan, std::atan(t)) UNT(arctanh, std::atanh(t)) UNT(cbrt, std::cbrt(t)) UNT(ceil, std::ceil(t))
+    UNT(cos, std::cos(t)) UNT(cosh, std::cosh(t)) UNT(exp, std::exp(t)) UNT(exp2, std::exp2(t)) UNT(expm1, std::expm1(t))
+    UNT(fabs, std::fabs(t)) UNT(floor, std::floor(t)) UNT(isfinite, std::isfinite(t)) UNT(isinf, std::isinf(t))
+    UNT(isnan, std::isnan(t)) UNT(log, std::log(t)) UNT(log10, std::log10(t)) UNT(log1p, std::log1p(t)) UNT(log2, std::log2(t))
+    UNT(negative, -t) UNT(positive, +t) UNT(reciprocal, 1 / t) UNT(rint, std::rint(t)) UNT(signbit, std::signbit(t))
+    UNT(sin, std::sin(t)) UNT(sinh, std::sinh(t)) UNT(sqrt, std::sqrt(t)) UNT(square, t * t) UNT(tan, std::tan(t))
+    UNT(tanh, std::tanh(t)) UNT(trunc, std::trunc(t)) UNT(logical_not, !static_cast<bool>(t))
+    UNT(deg2rad, t * (PI / 180)) UNT(radians, t * (PI / 180))
+    UNT(degrees, t * (static_cast<T>(180) / PI)) UNT(rad2deg, t * (static_cast<T>(180) / PI))
     return "";
 }
 static std::string handle_b(const std::string& fn) {
@@ -183,7 +187,8 @@ static std::string handle_c(const std::string& fn) {
 static std::string handle(const Case& c) {
     if (c.op != "ident") return "unsupported";
     const std::string fn = c.args[0].raw.substr(2);
-    std::string r = handle_a(fn); if (!r.empty()) return r;
+    if (c.args.size() >= 2 && c.args[1].raw == "S:f32") { std::string r = handle_a<float>(fn); return r.empty() ? "unsupported" : r; }
+    std::string r = handle_a<double>(fn); if (!r.empty()) return r;
     r = handle_b(fn); if (!r.empty()) return r;
     r = handle_c(fn); if (!r.empty()) return r;
     return "unsupported";
